@@ -308,9 +308,190 @@ def _for_chain(text):
         pos = m.start() + len(new)
 
 
+_ADAPTERS = ("map", "filter", "flat_map", "tuple_combinations")
+_CONSUMERS = ("any", "sum", "fold", "collect")
+
+
+def _recv_start(b, dot):
+    """start offset of the receiver path that ends right before offset `dot` (identifiers, `.`, `::`, balanced () [])"""
+    i = dot
+    while i > 0:
+        ch = b[i - 1]
+        if ch.isalnum() or ch in "_.:":
+            i -= 1
+        elif ch.isspace() and b[i:dot + 1].lstrip().startswith("."):
+            # rustfmt breaks long method chains before the dot
+            j = i - 1
+            while j > 0 and b[j - 1].isspace():
+                j -= 1
+            if j > 0 and (b[j - 1].isalnum() or b[j - 1] in "_)]"):
+                i = j
+            else:
+                break
+        elif ch in ")]":
+            # balanced group backwards
+            depth, j = 0, i - 1
+            while j >= 0:
+                if b[j] in ")]":
+                    depth += 1
+                elif b[j] in "([":
+                    depth -= 1
+                    if depth == 0:
+                        break
+                j -= 1
+            i = j
+        else:
+            break
+    return i
+
+
+def _closure(arg):
+    m = re.match(r"\s*(?:move\s+)?\|\s*(.*?)\s*\|\s*(.*)$", arg, re.S)
+    return (m.group(1), " ".join(m.group(2).split())) if m else None
+
+
+def _expr_chain(text):
+    """R16 (expressions): SOURCE(.adapter)*(.consumer)? -> a block with explicit loops.
+    SOURCE: `V.iter()` | `iproduct!(A.iter(), B.iter())` | `iproduct!(r1, r2)` | call of a chain-returning fn (-> its _v twin)
+    adapters: map(|p| e), filter(|p| e), flat_map(Type::f), tuple_combinations();  consumers: any(|p| e), sum(), fold(i, f), collect()/none.
+    Eager loops instead of lazy iterators: same elements, same order (assumed adapter semantics)."""
+    k = 0
+    pos = 0
+    while True:
+        b = R.blank(text)
+        m = re.compile(r"(\biproduct!\s*\()|(\.\s*iter\s*\(\s*\))|(\b(%s)\s*\()" % "|".join(ITER_SOURCES)).search(b, pos)
+        if not m:
+            return text, k
+        if m.group(1):
+            start = m.start()
+            src_end = R.match_close(b, m.end() - 1) + 1
+            kind = "iproduct"
+        elif m.group(2):
+            start = _recv_start(b, m.start())
+            src_end = m.end()
+            kind = "iter"
+        else:
+            # chain-returning fn: must be a method call `recv.name(`
+            if m.start() == 0 or b[m.start() - 1] != ".":
+                pos = m.end(); continue
+            start = _recv_start(b, m.start() - 1)
+            src_end = R.match_close(b, m.end() - 1) + 1
+            kind = "fn"
+        # not inside a `for .. in` header (handled by _for_chain) and not a definition `fn name(`
+        line_start = b.rfind("\n", 0, start) + 1
+        if re.match(r"\s*(pub\s+)?fn\b", b[line_start:start + 1]) or re.search(r"\bfor\b[^\n{]*\bin\s*$", b[line_start:start]):
+            pos = src_end; continue
+        # the rest of the chain
+        j = src_end
+        segs = []
+        while True:
+            mm = re.compile(r"\s*\.\s*(\w+)\s*\(").match(b, j)
+            if not mm or mm.group(1) not in _ADAPTERS + _CONSUMERS:
+                break
+            c = R.match_close(b, mm.end() - 1)
+            segs.append((mm.group(1), text[mm.end():c]))
+            j = c + 1
+            if mm.group(1) in _CONSUMERS:
+                break
+        if not segs:
+            pos = src_end; continue
+        k += 1
+        end = j
+        src = " ".join(text[start:src_end].split())
+        head, opens = [], 0
+        e = "e%d_" % k
+        if kind == "iter":
+            recv = " ".join(text[start:m.start()].split())
+            if segs and segs[0][0] == "tuple_combinations":
+                segs = segs[1:]
+                head.append("let s%d_ = &%s; for i%d_ in 0..s%d_.len() { for j%d_ in (i%d_ + 1)..s%d_.len() { let %s = (&s%d_[i%d_], &s%d_[j%d_]);" % (k, recv, k, k, k, k, k, e, k, k, k, k))
+                opens = 2
+            else:
+                head.append("let s%d_ = &%s; for i%d_ in 0..s%d_.len() { let %s = &s%d_[i%d_];" % (k, recv, k, k, e, k, k))
+                opens = 1
+        elif kind == "iproduct":
+            args = text[m.end():src_end - 1]
+            ab = R.blank(args)
+            depth, cut = 0, None
+            for ii, ch in enumerate(ab):
+                if ch in "([{":
+                    depth += 1
+                elif ch in ")]}":
+                    depth -= 1
+                elif ch == "," and depth == 0:
+                    cut = ii; break
+            if cut is None:
+                raise ExtractError("R16: iproduct! with other than two arguments")
+            a1, a2 = " ".join(args[:cut].split()), " ".join(args[cut + 1:].split())
+            if a1.endswith(".iter()") and a2.endswith(".iter()"):
+                r1, r2 = a1[:-7], a2[:-7]
+                head.append("let s%da_ = &%s; let s%db_ = &%s; for i%d_ in 0..s%da_.len() { for j%d_ in 0..s%db_.len() { let %s = (&s%da_[i%d_], &s%db_[j%d_]);" % (k, r1, k, r2, k, k, k, k, e, k, k, k, k))
+            else:
+                head.append("for x%d_ in %s { for y%d_ in %s { let %s = (x%d_, y%d_);" % (k, a1, k, a2, e, k, k))
+            opens = 2
+        else:
+            name = m.group(4)
+            call = " ".join(text[start:src_end].split())
+            call = re.sub(r"\b%s\s*\(" % name, name + "_v(", call, count=1)
+            head.append("let s%d_ = %s; for i%d_ in 0..s%d_.len() { let %s = s%d_[i%d_];" % (k, call, k, k, e, k, k))
+            opens = 1
+        body = []
+        cons = None
+        for name, arg in segs:
+            if name == "map":
+                cl = _closure(arg)
+                if cl:
+                    body.append("let %s = { let %s = %s; %s };" % (e, cl[0], e, cl[1]))
+                else:
+                    body.append("let %s = %s(%s);" % (e, " ".join(arg.split()), e))
+            elif name == "filter":
+                cl = _closure(arg)
+                if not cl:
+                    raise ExtractError("R16: filter without closure")
+                body.append("if { let %s = &%s; %s } {" % (cl[0], e, cl[1]))
+                opens += 1
+            elif name == "flat_map":
+                path = " ".join(arg.split())
+                body.append("let t%d_ = %s_v(%s); for u%d_ in 0..t%d_.len() { let %s = t%d_[u%d_];" % (k, path, e, k, k, e, k, k))
+                opens += 1
+            elif name in _CONSUMERS:
+                cons = (name, arg)
+        acc = "acc%d_" % k
+        if cons is None or cons[0] == "collect":
+            init, upd = "let mut %s = Vec::new();" % acc, "%s.push(%s);" % (acc, e)
+        elif cons[0] == "any":
+            cl = _closure(cons[1])
+            init, upd = "let mut %s = false;" % acc, "if { let %s = %s; %s } { %s = true; }" % (cl[0], e, cl[1], acc)
+        elif cons[0] == "sum":
+            init, upd = "let mut %s: f64 = 0.;" % acc, "%s = %s + %s;" % (acc, acc, e)
+        elif cons[0] == "fold":
+            ab = R.blank(cons[1])
+            depth, cut = 0, None
+            for ii, ch in enumerate(ab):
+                if ch in "([{":
+                    depth += 1
+                elif ch in ")]}":
+                    depth -= 1
+                elif ch == "," and depth == 0:
+                    cut = ii; break
+            ini, fn = " ".join(cons[1][:cut].split()), cons[1][cut + 1:]
+            cl = _closure(fn)
+            init = "let mut %s = %s;" % (acc, ini)
+            if cl:
+                params = [x.strip() for x in cl[0].split(",")]
+                upd = "%s = { let %s = %s; let %s = %s; %s };" % (acc, params[0], acc, params[1], e, cl[1])
+            else:
+                upd = "%s = %s(%s, %s);" % (acc, " ".join(fn.split()), acc, e)
+        new = "{ " + init + " " + " ".join(head) + " " + " ".join(body) + " " + upd + " " + "}" * opens + " " + acc + " }"
+        old = text[start:end]
+        text = text[:start] + new + _blank_lines(old) + text[end:]
+        pos = start + len(new)
+
+
 GROUPS = {
     "iter": [
         ("R16", _for_chain, None),
+        ("R16", _expr_chain, None),
     ],
     "alias": [
         ("R8", _alias_set, None),
